@@ -99,7 +99,7 @@ def run(ctx):
         p = dict(pl["p"], maxtime=10 ** 6)
         jobs.append(dict(module="Fuse_gen", cfg_text=H.NODE_GEN % p, sim=pl["num"], depth=p["len"] + 1, seed=seed(),
                          label="gen node behaviours policy=%(policy)s W=%(w)d Min=%(min)d" % p))
-    res = H.run_jobs(ctx, jobs, parallel=4)
+    res = H.run_jobs(ctx, jobs, parallel=4 if thorough else 6)
 
     wcases, ncases = [], []
     for r in res[n_mc:n_win]:
